@@ -505,6 +505,31 @@ def c17(tier, seed, work):
 
 
 def c05(tier, seed, work):
+    res = c05_vec(tier, seed, work)
+    res = add_walk(res, work, [dict(name="c05-discovery", module="MCGenCipher", cfg_tpl="Gen_Cipher.cfg.tpl", family="discovery", tier=tier, seed=seed),
+                               dict(name="c05-sdr", module="MCGenSdr", cfg_tpl="Gen_Cipher.cfg.tpl", family="plain", tier="quick", seed=seed, opts={"exact": True})],
+                   "Protocol positions: malformed and truncated cipher-suite record data during discovery; SDR walks with exact-capacity "
+                   "receive slices.")
+    # every reply of the handshake substituted (bit flips, status, tags, truncation at every length, short payloads), exact-capacity slices
+    hs = [F.handshake_family(work, "c05-hs-mutate", "mutate", tier, seed, opts={"exact": True}),
+          F.handshake_family(work, "c05-hs-triples", "triples", tier, seed, opts={"exact": True})]
+    require_accepted(hs)
+    extra = []
+    for f in hs:
+        extra += flatten(f)
+    attach_scripts(extra)
+    res["viols"] += extra
+    res["coverage"]["evaluations"] += sum(f["scripts"] for f in hs)
+    res["coverage"]["distinct_nontrivial"] += sum(f["scripts"] for f in hs)
+    res["coverage"]["families"] += fam_cov(hs)
+    res["coverage"]["rule"] += (" Every handshake reply substituted by each mutation of GenHandshake.tla (single-bit flips, all status codes and "
+                                "tags, truncation at every length, short payloads with consistent length fields, every algorithm triple) with "
+                                "exact-capacity slices; in-session substitutions (garbage, truncation at every length, keyed-adversary payloads) "
+                                "are the C04 tamper family.")
+    return res
+
+
+def c05_vec(tier, seed, work):
     W = dict(module="MCGenWireVec")
     return vec_check("C05", tier, seed, work, [_vf("c05-total", "totality", tier, seed), _vf("c05-message", "message", tier, seed, **W),
                                                _vf("c05-wrapper", "wrapper", tier, seed, **W), _vf("c05-setup", "setup", tier, seed, **W)],
